@@ -510,7 +510,8 @@ def describe(case):
         else:
             ad_s.append(ACT_NAME[a[0]])
     return "%s curve id=%r rule=%s ad=%d index_base=%s nodes (timestamp s, value) in supply order %s; then %s" % (
-        "CurveDF::try_new" if path == 0 else "Python-facing Curve(...)", cid, RULES[rule], ad, base, nodes, ", ".join(ad_s))
+        "CurveDF::try_new" if path == 0 else "Python-facing Curve(...)" if path == 1 else
+        "CurveDF::try_new + to_json + from_json(document with the nodes in supply order)", cid, RULES[rule], ad, base, nodes, ", ".join(ad_s))
 
 
 def compare_all(ctx, cases, impl, model, weights=None, do_shrink=True):
